@@ -153,6 +153,21 @@ MUTATIONS = [
      "value.revisions[self.field_index] > revision", "value.revisions[self.field_index] >= revision"),
     ('rt-synthetic-no-new-revision', 'Runtime', 'src/database.rs',
      "        zalsa_mut.new_revision();\n        zalsa_mut.runtime_mut().report_tracked_write(durability);", "        zalsa_mut.runtime_mut().report_tracked_write(durability);"),
+    ('rt-add-read-simple-early-return', 'Runtime', 'src/active_query.rs',
+     "        self.durability = self.durability.min(durability);\n        self.add_changed_at(revision);",
+     "        self.durability = self.durability.min(durability);\n        if durability == Durability::NEVER_CHANGE {\n            return;\n        }\n        self.add_changed_at(revision);"),
+    ('rt-add-read-durability-max', 'Runtime', 'src/active_query.rs',
+     r"re:(self\.durability = self\.durability\.)min(\(durability\);\s*self\.changed_at = self\.changed_at\.max\(changed_at\);\s*#\[cfg\(feature = \"accumulator\"\)\]\s*let accumulated_inputs)",
+     r"\1max\2"),
+    ('rt-add-read-record-only-low', 'Runtime', 'src/active_query.rs',
+     "let record_input = durability != Durability::NEVER_CHANGE || !cycle_heads.is_empty();",
+     "let record_input = durability == Durability::LOW || !cycle_heads.is_empty();"),
+    ('rt-untracked-keeps-durability', 'Runtime', 'src/active_query.rs',
+     "        self.untracked_read = true;\n        self.durability = Durability::MIN;", "        self.untracked_read = true;"),
+    ('rt-untracked-medium', 'Runtime', 'src/active_query.rs',
+     "        self.untracked_read = true;\n        self.durability = Durability::MIN;", "        self.untracked_read = true;\n        self.durability = Durability::MEDIUM;"),
+    ('rt-new-query-high', 'Runtime', 'src/active_query.rs',
+     "            durability: Durability::MAX,\n            changed_at: Revision::start(),", "            durability: Durability::HIGH,\n            changed_at: Revision::start(),"),
     ('rt-revision-start-0', 'Runtime', 'src/revision.rs', "const START: usize = 1;", "const START: usize = 2;"),
 ]
 
